@@ -366,6 +366,30 @@ func buildC05Media(tier string) sim.Scenario {
 			if n != sc || len(infos) != sc {
 				w.Fail("C05/listing", "Count() reports %d streams, Infos() %d (page %d)", sc, n, len(infos))
 			}
+			// paged listings: a page holds the live streams after the token in path order, whether or not the token still
+			// names a live stream (the stream it named may have ended between two page requests)
+			tokens := append([]string{"/", "/live", "/zzz"}, ps...)
+			for _, cp := range c05Paths {
+				tokens = append(tokens, cp, cp[:len(cp)-1], cp+"0")
+			}
+			for _, tk := range tokens {
+				for size := 1; size <= 2; size++ {
+					var want []string
+					for _, q := range ps {
+						if q > tk && len(want) < size {
+							want = append(want, q)
+						}
+					}
+					tot, page := media.Infos(tk, size, false)
+					var gotp []string
+					for _, inf := range page {
+						gotp = append(gotp, inf.Path)
+					}
+					if tot != sc || strings.Join(gotp, " ") != strings.Join(want, " ") {
+						w.Fail("C05/listing", "Infos(token %q, page size %d) returned total %d and %v; the live streams are %v, so the page is %v", tk, size, tot, gotp, ps, want)
+					}
+				}
+			}
 			for _, inf := range infos {
 				g := media.Get(inf.Path)
 				if g == nil {
